@@ -28,6 +28,7 @@ Table(e) ==
        /\ Chk(e.N < 100000 \/ InBand(k, nel, e.pn, e.D, 49), "event_rate_equals_configured_probability")
        /\ Chk(e.N < 100000 \/ e.pairs < 0 \/ InBand(e.pairs, Mean(e.npairs, e.pn, e.D), e.pn, e.D, 150), "events_pairwise_independent")
        /\ Chk(e.N < 100000 \/ e.ipairs < 0 \/ InBand(e.ipairs, Mean(e.inpairs, e.pn, e.D), e.pn, e.D, 150), "events_independent_across_batch_items")
+       /\ Chk(e.N < 100000 \/ e.cpairs < 0 \/ InBand(e.cpairs, Mean(e.cnpairs, e.pn, e.D), e.pn, e.D, 150), "events_independent_across_successive_calls")
 
 Fading(e) ==
     /\ Chk(e.shape_ok, "output_shape_equals_input_shape")
